@@ -3204,6 +3204,11 @@ class LinConstr:
             warnings.warn(msg)
         else:
             dual_sol = solution.y['pi'][self.model.ciarray == cidx] * self.model.sign
+            num = self.linear.shape[0]
+            if dual_sol.size > num and dual_sol.size % num == 0:
+                # the same constraint object was added more than once: its
+                # shadow price is the sum over the copies of its rows
+                dual_sol = dual_sol.reshape((-1, num)).sum(axis=0)
             if dual_sol.size == 1:
                 dual_sol = dual_sol.item()
             elif self.shape is not None and dual_sol.size == np.prod(self.shape):
